@@ -45,6 +45,7 @@ import (
 	"fmt"
 	"os"
 	"path/filepath"
+	"regexp"
 	"slices"
 	"sort"
 	"strings"
@@ -451,6 +452,22 @@ func errKind(err string) string {
 	return sqlm.ErrClass(err)
 }
 
+var rePos = regexp.MustCompile(`^[^:]*:\d+,\d+(-\d+)?(,\d+)?: `)
+
+// evalErrKind is the summary of an HCL diagnostic ("Invalid index", "Unknown variable", …) without
+// position and detail, for finding keys.
+func evalErrKind(err string) string {
+	s := rePos.ReplaceAllString(err, "")
+	if i := strings.IndexByte(s, ';'); i > 0 {
+		s = s[:i]
+	}
+	s = strings.ToLower(strings.Join(strings.Fields(s), "-"))
+	if len(s) > 40 {
+		s = s[:40]
+	}
+	return s
+}
+
 func lastLine(s string) string {
 	s = strings.TrimSpace(s)
 	if i := strings.LastIndexByte(s, '\n'); i >= 0 {
@@ -570,7 +587,7 @@ func evalDB(ctx context.Context, dir, path, atlas string, o *Outcome) {
 		leg := "hcl-export"
 		g, err := evalHCL(hcl)
 		if err != nil {
-			o.atom(leg+"|eval-error|"+errKind(err.Error()), "hcl eval error", err.Error())
+			o.atom(leg+"|eval-error|"+evalErrKind(err.Error()), "hcl eval error", err.Error())
 		} else {
 			ev := func() (*schema.Schema, error) { return evalHCL(hcl) }
 			o.diffLeg(leg, "db->export", fresh, ev)
